@@ -59,7 +59,7 @@ def run(ctx):
         rs = ctx.rule("R6", "human-readable round trip: parse(serialize(f)) has the sort and the meaning of f")
         from . import text_deep as td
         for r in td.hr_results(repo, ctx.tier):
-            if r["kind"] == "valid":
+            if r["kind"] in ("valid", "outside"):
                 rs.ok({"skeleton": r["shape"], "text": r["text"], "result": r["detail"]})
             elif r["kind"] in ("invalid", "rejected", "raises"):
                 ctx.finding(rs, "hr|%s" % r["shape"], "%s: %s" % (r["shape"], r["detail"]), "pysmt/parsing.py")
